@@ -17,6 +17,7 @@ import json
 import os
 import random
 import re
+import signal
 import subprocess
 import sys
 import time
@@ -161,13 +162,24 @@ def stage_b(prop, cfg, tier, seed, log):
         rng = random.Random((seed * 1000003) ^ hash_str(gname))
         t0 = time.time()
         cases = []
+        # watchdog: a call of the implementation that does not return is a behavioural difference
+        # (the model returns), not a reason for the check to hang
+        limit = int(os.environ.get("VERIF_WATCHDOG", 5400 if tier == "thorough" else 300))
+
+        def _hang(signum, frame):
+            raise TimeoutError("the implementation did not return within %d s while the cases of "
+                               "group %r were being generated" % (limit, gname))
+        signal.signal(signal.SIGALRM, _hang)
+        signal.alarm(limit)
         try:
             for c in gen(rng, n, tier):
                 cases.append(c)
             for extra in spec.get("exhaustive_" + tier, []):
                 for c in getattr(mod, extra)():
                     cases.append(c)
+            signal.alarm(0)
         except Exception as exc:  # noqa: BLE001
+            signal.alarm(0)
             # the harness could not even canonicalise what the implementation returned
             # (wrong type, missing attribute, …): that is a behavioural difference
             log(traceback.format_exc())
@@ -340,11 +352,16 @@ def main():
         broken = {"proof_failures": a["failures"], "correspondence_mismatches": b["mismatches"][:5],
                   "fixed_finding_regressions": kviol, "tier": tier,
                   "groups": cfg.get("groups", [])}
+        def _hang2(signum, frame):
+            raise TimeoutError("failing-input search exceeded its budget")
+        signal.signal(signal.SIGALRM, _hang2)
+        signal.alarm(budget * 2 + 60)
         try:
             found = search.run(prop, seed, budget, broken)
         except Exception:  # noqa: BLE001
             log(traceback.format_exc())
             found = None
+        signal.alarm(0)
         if found is None and kviol:
             found = {"kind": "regression-of-fixed-finding", **kviol[0]}
         search_info = {"ran": True, "found": found is not None}
